@@ -88,7 +88,7 @@ def _run_one(workdir, module, cfg_text, prime, timeout, simulate=None, workers=1
 
 
 def run_model(module: str, cfg_text: str, nprimes: int = 8, timeout: int = 1800, simulate=None,
-              workers: int = 1, extra_consts=None, keep=False):
+              workers: int = 0, extra_consts=None, keep=False):
     """Returns (merged_behaviours, stats). merged behaviour = list of steps; the plain part ("act", "a",
     "id", "mid") taken from the first prime, the field-coded parts ("f", "o", "mo", "ret") decoded exactly."""
     primes = tuple(decode.PRIMES[:nprimes])
@@ -98,6 +98,8 @@ def run_model(module: str, cfg_text: str, nprimes: int = 8, timeout: int = 1800,
             if fn.endswith(".tla"):
                 shutil.copy(os.path.join(SPEC_DIR, fn), os.path.join(workdir, fn))
         ncpu = os.cpu_count() or 4
+        if workers <= 0:      # share the cores between the per-prime processes
+            workers = 1 if simulate else max(1, ncpu // len(primes))
         par = max(1, min(len(primes), ncpu // max(1, workers)))
         with ThreadPoolExecutor(max_workers=par) as ex:
             futs = [ex.submit(_run_one, workdir, module, cfg_text, p, timeout, simulate, workers, "2g", extra_consts)
